@@ -18,7 +18,10 @@ def proj_base(t):
 
 def rand_frac(rng, big=True):
     if big:
-        return F(rng.randrange(-10 ** 9, 10 ** 9), rng.randrange(1, 10 ** 6))
+        den = rng.randrange(1, 10 ** 6)
+        while den % P == 0:            # not representable in GF(P): draw another value
+            den = rng.randrange(1, 10 ** 6)
+        return F(rng.randrange(-10 ** 9, 10 ** 9), den)
     return F(rng.randrange(-6, 7), rng.choice([1, 1, 2, 3]))
 
 
